@@ -41,6 +41,20 @@ def histories(rng, tier):
             tot += n2
             acts += [("dump",), ("probs",)]
         hs.append((0, acts))
+    # copies made into an existing register of another size (Clone::clone_from): the copy has the source's sizes
+    for _ in range(24 if tier == "quick" else 600):
+        n = rng.randint(0, 5); k = rng.randint(0, 6)
+        acts = [("raw", n, rand_small_state(rng, n))] if rng.random() < 0.5 else [("with", n, rng.randrange(1 << n))]
+        if rng.random() < 0.3:
+            acts.append(("threads", 2))
+        acts += [("clonefrom", k), ("dump",), ("probs",), ("polar",), ("vreglen",), ("sample", 3)]
+        if rng.random() < 0.5:
+            n2 = rng.randint(0, 2)
+            acts += [("tensorr", n2, rand_small_state(rng, n2)), ("dump",), ("vreglen",)]
+        else:
+            k2 = rng.randint(0, 6)
+            acts += [("setnum", k2), ("dump",), ("vreglen",)]
+        hs.append((0, acts))
     # grow / shrink sequences
     for _ in range(40 if tier == "quick" else 2000):
         n = rng.randint(0, 4)
